@@ -833,6 +833,62 @@ def rule_gen_layout(prog, rep, tier, anchor="gen.gen"):
         rep.ob("GEN-LAYOUT", "module template", "unresolved", loc(prog, fi.node), "no `'...'.format(prepend=..., imports=..., ...)` template found")
 
 
+def rule_join_source(prog, rep, tier, anchor="gen.gen"):
+    """JOIN-SOURCE (C19): pieces of source rendered from statement nodes (`to_code(node)`: `ast.unparse` ends nothing with a
+    newline) are put together with a separator that contains a line break, or each piece is terminated by one.  Joined with the
+    empty string, two import lines become `import osfrom typing import List` and the generated module does not parse."""
+    fi = prog.fn(anchor)
+    n = 0
+
+    def renders(e, depth=0):
+        """e (an element expression, or a function applied element-wise) renders a node to source"""
+        if e is None or depth > 4:
+            return False
+        for x in ast.walk(e):
+            if isinstance(x, (ast.Name, ast.Attribute)) and isinstance(getattr(x, "ctx", None), ast.Load):
+                if (x.id if isinstance(x, ast.Name) else x.attr) in ("to_code", "unparse", "to_source", "_to_code"):
+                    return True
+        return False
+
+    def terminated(e):
+        """the element text certainly ends in a line break: `.. + "\n"`, `"{}\n".format(..)`, an f-string ending in one"""
+        if isinstance(e, ast.Lambda):
+            return terminated(e.body)
+        if isinstance(e, ast.BinOp) and isinstance(e.op, ast.Add):
+            return isinstance(e.right, ast.Constant) and isinstance(e.right.value, str) and e.right.value.endswith("\n")
+        if isinstance(e, ast.Call) and isinstance(e.func, ast.Attribute) and e.func.attr == "format" and isinstance(e.func.value, ast.Constant) \
+                and isinstance(e.func.value.value, str):
+            return e.func.value.value.endswith("\n")
+        if isinstance(e, ast.JoinedStr) and e.values:
+            last = e.values[-1]
+            return isinstance(last, ast.Constant) and isinstance(last.value, str) and last.value.endswith("\n")
+        return False
+    for f in prog.region(fi):
+        for c in ast.walk(f.node):
+            if not (isinstance(c, ast.Call) and isinstance(c.func, ast.Attribute) and c.func.attr == "join" and len(c.args) == 1
+                    and isinstance(c.func.value, ast.Constant) and isinstance(c.func.value.value, str)):
+                continue
+            sep, arg = c.func.value.value, c.args[0]
+            el = None
+            if isinstance(arg, (ast.GeneratorExp, ast.ListComp)):
+                el = arg.elt
+            elif isinstance(arg, ast.Call) and isinstance(arg.func, ast.Name) and arg.func.id == "map" and arg.args:
+                el = arg.args[0]
+            if el is None or not renders(el):
+                continue
+            n += 1
+            inst = "%s: %s" % (prog.owner_name(f), src(c, 60))
+            if "\n" in sep or terminated(el):
+                rep.holds("JOIN-SOURCE", inst, loc(prog, c), "a line break separates (or ends) the rendered statements")
+            else:
+                rep.violation(Finding(
+                    "JOIN-SOURCE", prog.owner_name(f), "statements-joined-without-line-break",
+                    "%s puts rendered statements together with the separator %r and nothing ends a piece: with two or more of them (several import lines) "
+                    "the text is `import osfrom typing import List` and the generated module does not parse" % (src(c, 60), sep), loc(prog, c)))
+    if n == 0:
+        raise AnalysisError("JOIN-SOURCE: no join of rendered statements found in %s" % anchor)
+
+
 def rule_pairs_all(prog, rep, tier, anchor="sync_properties.sync_properties", per_pair="sync_properties.sync_property"):
     """PAIRS (C14): every (input, output) pair is applied: the pair loop iterates zip(<both parameter lists>) in full,
     its body calls the per-pair worker unconditionally, and the tree it returns is the tree handed to the next pair."""
